@@ -29,6 +29,9 @@ type Universe struct {
 	AllLicense  []string // Active ++ Deprecated
 	InTable     []string // listed ids that have at least one table position
 	NotInTable  []string // listed license ids with no table position (after stripping -or-later)
+	// UnlistedStems are unknown ids chosen to be hostile: U is on no list, but U-or-later or U-only is
+	// (e.g. GFDL-1.1-invariants). By the grammar they are unknown ids like any other.
+	UnlistedStems []string
 }
 
 // Load reads the tables of the tree under check.
@@ -79,6 +82,15 @@ func Load() *Universe {
 			u.DepFold = append(u.DepFold, x)
 		default:
 			u.DepPlain = append(u.DepPlain, x)
+		}
+	}
+	seenStem := map[string]bool{}
+	for _, x := range u.Active {
+		for _, suf := range []string{"-or-later", "-only"} {
+			if st := strings.TrimSuffix(x, suf); st != x && !u.Listed(st) && !seenStem[st] {
+				seenStem[st] = true
+				u.UnlistedStems = append(u.UnlistedStems, st)
+			}
 		}
 	}
 	u.AllLicense = append(append([]string{}, u.Active...), u.Deprecated...)
